@@ -22,6 +22,7 @@ func init() {
 			"a pointer whose phi has a nil inflow is not dereferenced without a test (C13.nil-phi)",
 			"no interface/func field that has no writer anywhere is invoked (C13.never-assigned)",
 			"a pointer filled by errors.As is used only on the call's true edge (C13.as-failure)",
+			"the value result of a (value, error) call in the loader / pattern packages is stored, passed on or dereferenced only where that error is known nil or the value non-nil (C13.value-before-err)",
 			"no single-result type assertion on decoded values in the loader packages (C13.assert-ok); submatch indices ≤ groups of the constant pattern (C13.submatch)",
 			"the executor-config normaliser descends into both container kinds yaml.v2 produces, map[any]any and []any (C13.serialisable); SyncMap keys are strings",
 			"signalOnStop is stored only when SignalNum of that same value is non-zero; Schedule values only from expressions the cron parser accepted; a step only after its validator returned nil; a DAG only when the error list is empty and every builder error is added to it (C13.validity)",
@@ -49,6 +50,7 @@ func runC13(e *Env) {
 	c.neverAssigned()
 	c.asFailure()
 	c.assertOK()
+	c.valueBeforeErr()
 	c.submatch()
 	c.serialisable()
 	c.validity()
@@ -427,6 +429,11 @@ func (c *c13) assertOK() {
 				if !ok || ta.CommaOk {
 					continue
 				}
+				// values taken back out of a typed container idiom (sync.Map, context
+				// values) are not decoded data: what was stored there is the program's own
+				if c.fromOwnContainer(ta.X) {
+					continue
+				}
 				// a type switch lowers to comma-ok asserts; a plain x.(T) does not
 				// accepted: dominated by a successful comma-ok assertion of the same value to the same type
 				okDom := false
@@ -448,6 +455,232 @@ func (c *c13) assertOK() {
 	if n == 0 {
 		r.OK("no single-result type assertion in packages dag / patternutil", "-", "expected count is zero; the thorough tier checks a positive example in the variant suite")
 	}
+}
+
+// fromOwnContainer: every source of v is the result of a sync.Map / context
+// lookup (values the program itself stored), not the decoded tree.
+func (c *c13) fromOwnContainer(v ssa.Value) bool {
+	fl := &ir.Flow{C: c.e.C, Source: func(x ssa.Value) bool {
+		call, ok := x.(*ssa.Call)
+		if !ok {
+			return false
+		}
+		if ir.IsCallTo(&call.Call, "(*sync.Map).Load", "(*sync.Map).LoadOrStore", "(*sync.Map).LoadAndDelete", "(*sync.Map).Swap") {
+			return true
+		}
+		return call.Call.IsInvoke() && call.Call.Method.Name() == "Value" && ir.NamedType(call.Call.Value.Type()) == "context.Context"
+	}}
+	return fl.All(v)
+}
+
+// valueBeforeErr: the value result of a `(v, err)` call is put to use (stored,
+// handed to another call, dereferenced) only where the call's error is known to
+// be nil or the value is known to be non-nil. A value that is only returned
+// together with the same call's error is the caller's problem and not a use.
+func (c *c13) valueBeforeErr() {
+	e, r := c.e, c.e.R
+	r.Rule("C13.value-before-err", "DCS", "the value of a (value, error) call is used only under err == nil", 5)
+	var fns []*ssa.Function
+	for f := range c.scope {
+		fns = append(fns, f)
+	}
+	sort.Slice(fns, func(i, j int) bool { return fns[i].Pos() < fns[j].Pos() })
+	nilable := func(t types.Type) bool {
+		switch t.Underlying().(type) {
+		case *types.Pointer, *types.Interface, *types.Map, *types.Signature, *types.Chan:
+			return true
+		}
+		return false
+	}
+	for _, f := range fns {
+		for _, b := range f.Blocks {
+			for _, in := range b.Instrs {
+				call, ok := in.(*ssa.Call)
+				if !ok {
+					continue
+				}
+				tup, ok := call.Type().(*types.Tuple)
+				if !ok || tup.Len() != 2 || !ir.IsErrorType(tup.At(1).Type()) || !nilable(tup.At(0).Type()) {
+					continue
+				}
+				var val, errv *ssa.Extract
+				for _, ref := range *call.Referrers() {
+					if ex, ok := ref.(*ssa.Extract); ok {
+						if ex.Index == 0 {
+							val = ex
+						} else {
+							errv = ex
+						}
+					}
+				}
+				if val == nil || val.Referrers() == nil || len(*val.Referrers()) == 0 {
+					continue
+				}
+				if errv != nil && (errv.Referrers() == nil || len(*errv.Referrers()) == 0) {
+					errv = nil // `v, _ := f()`: the error is discarded
+				}
+				okAll := true
+				var badUse ssa.Instruction
+				uses := 0
+				if errv == nil && c.errCannotHappen(f, call) {
+					continue
+				}
+				for _, u := range c.uses(val, 0) {
+					if _, isRet := u.(*ssa.Return); isRet {
+						continue // handed to the caller together with (or instead of) the error
+					}
+					uses++
+					lits := e.DCS(u)
+					safe := HasNilCmp(lits, func(x ssa.Value) bool { return ir.Resolve(x) == ssa.Value(val) }, true)
+					if errv != nil {
+						for _, l := range lits {
+							if l.Kind == "cmp" && l.Op == token.EQL && ir.IsNilConst(l.Y) && ir.Resolve(l.X) == ssa.Value(errv) {
+								safe = true
+							}
+						}
+					}
+					// a plain store / hand-over into an object under construction is the
+					// "assign both, then propagate the error" idiom: fine when every way on
+					// from the use either has this error nil or returns it. Not for dereferences and
+					// not for values that escape into package-level state, which outlives
+					// the failing call.
+					if !safe && errv != nil && !c.strictUse(u, val) {
+						bad, _ := ir.Bypass(u, nil, ir.PathQuery{
+							// the branch on which this error is nil is the safe side; every
+							// other way on must end in a return that carries the error
+							SkipEdge: func(from *ssa.BasicBlock, idx int) bool {
+								i, ok := from.Instrs[len(from.Instrs)-1].(*ssa.If)
+								if !ok {
+									return false
+								}
+								n := ir.Normalize(ir.Lit{Cond: i.Cond, Pol: idx == 0})
+								return n.Kind == "cmp" && n.Op == token.EQL && ir.IsNilConst(n.Y) && ir.Resolve(n.X) == ssa.Value(errv)
+							},
+							Bad: func(in ssa.Instruction) bool {
+								rt, ok := in.(*ssa.Return)
+								if !ok {
+									return false
+								}
+								nres := len(rt.Results)
+								if nres == 0 {
+									return true
+								}
+								fl := &ir.Flow{C: e.C, Source: func(x ssa.Value) bool { return x == ssa.Value(errv) }}
+								for _, rv := range RetVals(rt, nres-1) {
+									if fl.Any(rv) {
+										return false
+									}
+								}
+								return true
+							},
+						})
+						safe = bad == nil
+					}
+					if !safe {
+						okAll = false
+						if badUse == nil {
+							badUse = u
+						}
+					}
+				}
+				if uses == 0 {
+					continue
+				}
+				pos := e.InstrPos(call)
+				var facts []string
+				if badUse != nil {
+					pos = e.InstrPos(badUse)
+					facts = append(facts, "use: "+badUse.String(), e.FactsStr("dominating conditions: ", e.DCS(badUse)))
+				}
+				r.Check(okAll, shortName(f)+": result of "+shortCallee(&call.Call)+" used only after its error was seen to be nil", pos,
+					"the value result of a call that also returns an error is stored, passed on or dereferenced on a path where the error may be non-nil (the value is then nil or meaningless): an input that makes the call fail panics later or is silently accepted", facts...)
+			}
+		}
+	}
+}
+
+// strictUse: the use dereferences the value or lets it escape into
+// package-level state.
+func (c *c13) strictUse(u ssa.Instruction, val ssa.Value) bool {
+	isGlobal := func(v ssa.Value) bool {
+		for d := 0; d < 6 && v != nil; d++ {
+			switch x := v.(type) {
+			case *ssa.Global:
+				return true
+			case *ssa.UnOp:
+				v = x.X
+			case *ssa.FieldAddr:
+				v = x.X
+			case *ssa.IndexAddr:
+				v = x.X
+			case *ssa.Field:
+				v = x.X
+			default:
+				return false
+			}
+		}
+		return false
+	}
+	switch x := u.(type) {
+	case *ssa.FieldAddr, *ssa.Field, *ssa.IndexAddr, *ssa.Index, *ssa.Lookup, *ssa.UnOp, *ssa.TypeAssert, *ssa.Range, *ssa.Slice:
+		return true // dereference
+	case *ssa.Store:
+		return isGlobal(x.Addr)
+	case *ssa.MapUpdate:
+		return isGlobal(x.Map)
+	case ssa.CallInstruction:
+		cc := x.Common()
+		if cc.IsInvoke() {
+			return true // method call on the value / through an interface holding it
+		}
+		for i, a := range cc.Args {
+			if isGlobal(a) {
+				return true
+			}
+			// the value as receiver of a method: dereference
+			if i == 0 && cc.Signature().Recv() != nil && ir.Resolve(a) == ir.Resolve(val) {
+				return true
+			}
+		}
+	}
+	return false
+}
+
+// errCannotHappen: the one accepted "error discarded" site, by name, with the reason.
+func (c *c13) errCannotHappen(f *ssa.Function, call *ssa.Call) bool {
+	// dag.decode: mapstructure.NewDecoder fails only when DecoderConfig.Result is not a
+	// pointer; decode passes `new(definition)`.
+	return shortName(f) == "dag.decode" && strings.HasSuffix(ir.CalleeName(&call.Call), "mapstructure.NewDecoder")
+}
+
+// uses lists the instructions that put v to use, looking through phis,
+// conversions and interface boxing.
+func (c *c13) uses(v ssa.Value, depth int) []ssa.Instruction {
+	var out []ssa.Instruction
+	if v.Referrers() == nil || depth > 4 {
+		return nil
+	}
+	for _, ref := range *v.Referrers() {
+		switch x := ref.(type) {
+		case *ssa.Phi:
+			out = append(out, c.uses(x, depth+1)...)
+		case *ssa.MakeInterface:
+			out = append(out, c.uses(x, depth+1)...)
+		case *ssa.ChangeType:
+			out = append(out, c.uses(x, depth+1)...)
+		case *ssa.ChangeInterface:
+			out = append(out, c.uses(x, depth+1)...)
+		case *ssa.Convert:
+			out = append(out, c.uses(x, depth+1)...)
+		case *ssa.DebugRef:
+		case *ssa.BinOp:
+			// comparisons (v == nil) are tests, not uses
+		case *ssa.If:
+		default:
+			out = append(out, ref)
+		}
+	}
+	return out
 }
 
 func (c *c13) submatch() {
